@@ -5,11 +5,13 @@
     first error, `//`, `if`, `label`), and the algebra of these streams - the laws the manual states for filters - for
     every stream however it ends.  Compiler correctness ([compile_correct]) is proved for the binding core: variables, `as $x |` (nested, shadowing), `|`, `,`,
     `//`, arithmetic, comparison, `and`/`or`, negation, `if`, `try`, array construction, paths, `reduce`/`foreach`, `label`/`break` - the compiled term with variables as
-    positions computes exactly the named semantics.  Definitions, objects and destructuring patterns rest on the
-    correspondence of tables and outputs. *)
+    positions computes exactly the named semantics.  [compile_defs] extends this to definitions without parameters - recursive, nested, capturing
+    the variables and labels in scope - against the table of definitions the compiler fills.  Definitions with parameters, objects and
+    destructuring patterns rest on the correspondence of tables and outputs. *)
 From Coq Require Import List FunctionalExtensionality.
 From JaqV Require Import Base.Bytes Base.Stream Val.Val Val.Err Core.Syntax Core.Compile Core.Natives Core.Run Proofs.StreamLaws Proofs.MonadLaws
   Proofs.CompileCorrect.
+From JaqV Require Proofs.CompileDefs.
 Import ListNotations.
 
 (** ** the interpreter's clauses *)
@@ -99,3 +101,26 @@ Theorem compile_correct_closed : forall g d nr defs n t, frag [] n t ->
                 /\ forall fuel v, run d nr defs fuel k {| vars := []; labels := 0 |} v = sem d fuel t [] 0 v.
 Proof. exact CompileCorrect.compile_correct_closed. Qed.
 Print Assumptions compile_correct_closed.
+
+(** ** compiler correctness with definitions *)
+(** [CompileDefs.frag b fs n t]: as above, plus `def f: body; t` (recursive, nested, shadowing) and calls `f` of the definitions in
+    scope [fs].  [CompileDefs.sem] keeps closures (body, environment at the definition, older definitions).  Compiling never
+    fails, only extends the table of definitions, and - against any table that contains what was allocated - the compiled term
+    run in a context that agrees with the named environment, with the older definitions related to their table entries
+    ([funs_rel]), computes exactly the named semantics: call by table index, dropping the variables bound since the
+    definition, is call by name with the captured environment. *)
+Theorem compile_defs : forall g d nr b fs n t, CompileDefs.frag b fs n t ->
+  forall m e s tr, (n <= m)%nat -> CompileDefs.scoped b e -> CompileDefs.fscoped fs e ->
+  exists k trr s', c_term g m e s t tr = ((k, trr), s') /\ CompileDefs.extends s s'
+    /\ forall defs, CompileDefs.covers s s' defs -> forall fuel c rho phi v,
+          CompileDefs.agrees e c rho -> CompileDefs.funs_rel d nr defs fuel (e_funs e) rho phi ->
+          run d nr defs fuel k c v = CompileDefs.sem d fuel t rho phi (labels c) v.
+Proof. exact CompileDefs.compile_defs. Qed.
+Print Assumptions compile_defs.
+
+(** a whole program compiled from scratch and run against the table the compiler produced *)
+Theorem compile_defs_closed : forall g d nr n t, CompileDefs.frag [] [] n t ->
+  exists k trr s', c_term g n empty_env empty_cst t [] = ((k, trr), s') /\ c_errs s' = 0%nat
+    /\ forall fuel v, run d nr (c_defs s') fuel k {| vars := []; labels := 0 |} v = CompileDefs.sem d fuel t [] [] 0 v.
+Proof. exact CompileDefs.compile_defs_closed. Qed.
+Print Assumptions compile_defs_closed.
